@@ -169,6 +169,8 @@ type instCtx struct {
 	canonMem map[*sx]string
 	atomCanon map[string]string
 	intern    map[string]string
+	varSort   map[string]string
+	otherSort map[string][]*sx // Skolem constants of bit-vector sorts other than 64 bits
 	nReads   int
 }
 
@@ -384,6 +386,21 @@ func (ic *instCtx) equated(body *sx, v string, out *[]*sx) {
 
 // candidates returns the instantiation terms for variable v of a quantifier.
 func (ic *instCtx) candidates(body *sx, v string) []*sx {
+	if srt := ic.varSort[v]; srt != "" && srt != bv64Sort {
+		// narrower bit-vector variables (counters, hashes): Skolem constants of that sort,
+		// terms the variable is equated with, and zero
+		var out []*sx
+		out = append(out, ic.otherSort[srt]...)
+		var eqs []*sx
+		ic.equated(body, v, &eqs)
+		out = append(out, eqs...)
+		w := strings.TrimSuffix(strings.TrimPrefix(srt, "(_ BitVec "), ")")
+		out = append(out, &sx{atom: "(_ bv0 " + w + ")"})
+		if len(out) > 8 {
+			out = out[:8]
+		}
+		return out
+	}
 	var pats []pattern
 	ic.patterns(body, v, &pats)
 	seen := map[string]bool{}
@@ -515,6 +532,8 @@ func (ic *instCtx) process(n *sx, pos bool, bound int, instantiate bool) *sx {
 				m[v.list[0].atom] = sk
 				if v.list[1].String() == bv64Sort {
 					ic.addFallback(sk)
+				} else if strings.HasPrefix(v.list[1].String(), "(_ BitVec ") {
+					ic.otherSort[v.list[1].String()] = append(ic.otherSort[v.list[1].String()], sk)
 				}
 			}
 			return ic.process(body.subst(m), pos, bound, instantiate)
@@ -526,8 +545,9 @@ func (ic *instCtx) process(n *sx, pos bool, bound int, instantiate bool) *sx {
 		var bvVars []string
 		var rest []*sx
 		for _, v := range vars {
-			if v.list[1].String() == bv64Sort {
+			if strings.HasPrefix(v.list[1].String(), "(_ BitVec ") {
 				bvVars = append(bvVars, v.list[0].atom)
+				ic.varSort[v.list[0].atom] = v.list[1].String()
 			} else {
 				rest = append(rest, v)
 			}
@@ -631,7 +651,7 @@ func (ic *instCtx) tuples(body *sx, vars []string) [][]*sx {
 // assertion strings and extra declarations.
 func (c *Ctx) Preprocess(asserts []string, usedDefs map[string]string, lite bool) ([]string, []decl) {
 	ic := &instCtx{c: c, dropQ: lite, maxInst: 64, reads: map[string]map[string]*sx{}, fbSet: map[string]bool{},
-		canonMem: map[*sx]string{}, defs: map[string]*sx{}, atomCanon: map[string]string{}, intern: map[string]string{}}
+		canonMem: map[*sx]string{}, defs: map[string]*sx{}, atomCanon: map[string]string{}, intern: map[string]string{}, varSort: map[string]string{}, otherSort: map[string][]*sx{}}
 	var trees []*sx
 	any := false
 	for _, a := range asserts {
